@@ -424,7 +424,8 @@ class MerchantEngine:
                 result = expr_parser.evaluate_transaction(
                     expr, transaction, variables=variables, data_sources=data_sources
                 )
-                evaluated[field_name] = result
+                # a generator object cannot be reported (JSON/HTML); store the list it describes
+                evaluated[field_name] = expr_parser.materialize(result)
             except expr_parser.ExpressionError:
                 # If field evaluation fails, skip it
                 pass
@@ -471,7 +472,10 @@ class MerchantEngine:
                         expr, transaction, variables=variables, data_sources=data_sources
                     )
                     if result:
-                        # Handle list results (e.g., from list comprehensions)
+                        # Handle list results (e.g., from list comprehensions); a generator
+                        # expression is consumed like a list - str() of a generator object
+                        # would put '<generator object ... at 0x...>' into the tag set
+                        result = expr_parser.materialize(result)
                         if isinstance(result, list):
                             for item in result:
                                 if item:
